@@ -25,6 +25,9 @@ type queryPacket struct {
 	bindPacket        *BindPacket
 	executePacket     *ExecutePacket
 	simpleQueryPacket string
+	// syncPoint marks the place in the queue of pending queries where the database answers with ReadyForQuery:
+	// after a simple Query and after every Sync of the extended protocol. It is not a query itself.
+	syncPoint bool
 }
 
 func newQueryPacket(query string) queryPacket {
@@ -35,8 +38,15 @@ func newExtendedQueryPacket(preparedStatement *PgPreparedStatement, bindPacket *
 	return queryPacket{preparedStatement: preparedStatement, bindPacket: bindPacket, executePacket: executePacket}
 }
 
+func newSyncPointPacket() queryPacket {
+	return queryPacket{syncPoint: true}
+}
+
 // String return SimpleQuery or Prepared with statement name for log purposes
 func (queryPacket queryPacket) String() string {
+	if queryPacket.syncPoint {
+		return "SyncPoint"
+	}
 	if queryPacket.executePacket != nil {
 		return "Prepared: " + queryPacket.preparedStatement.name
 	}
@@ -125,9 +135,39 @@ func (p *PgProtocolState) HandleClientPacket(packet *PacketHandler) error {
 		return nil
 	}
 
+	// Sync ends a series of extended-protocol messages: the database answers it with ReadyForQuery and,
+	// after an error, skips everything up to it. Remember where it is among the pending queries.
+	if packet.IsSync() {
+		p.lastPacketType = OtherPacket
+		return p.pendingQueryPackets.Add(newSyncPointPacket())
+	}
+
 	// We are not interested in other packets, just pass them through.
 	p.lastPacketType = OtherPacket
 	return nil
+}
+
+// forgetPendingQueriesUntilSyncPoint removes the pending queries in front of the next sync point (and the sync
+// point itself if inclusive): the database will not send (more) responses for them.
+func (p *PgProtocolState) forgetPendingQueriesUntilSyncPoint(inclusive bool) error {
+	for {
+		pending, err := p.pendingQueryPackets.GetPendingPacket(queryPacket{})
+		if err != nil {
+			return err
+		}
+		if pending == nil {
+			return nil
+		}
+		if pending.(queryPacket).syncPoint && !inclusive {
+			return nil
+		}
+		if err := p.pendingQueryPackets.RemoveNextPendingPacket(queryPacket{}); err != nil {
+			return err
+		}
+		if pending.(queryPacket).syncPoint {
+			return nil
+		}
+	}
 }
 
 // HandleDatabasePacket observes a packet with database response,
@@ -173,6 +213,16 @@ func (p *PgProtocolState) HandleDatabasePacket(packet *PacketHandler) error {
 			}
 			return nil
 		}
+		if packet.IsErrorResponse() {
+			// The failed query will not be answered anymore, and in the extended protocol the database discards
+			// all messages up to the next Sync: none of the queries pending before it will be answered either.
+			return p.forgetPendingQueriesUntilSyncPoint(false)
+		}
+		if pendingQueryPacket.(queryPacket).syncPoint {
+			// a response that belongs to no registered query (for example the second statement of a
+			// multi-statement simple query)
+			return nil
+		}
 		log.WithField("command", pendingQueryPacket.(queryPacket)).Infoln("Command complete")
 		if err := p.pendingQueryPackets.RemoveNextPendingPacket(queryPacket{}); err != nil {
 			return err
@@ -180,11 +230,11 @@ func (p *PgProtocolState) HandleDatabasePacket(packet *PacketHandler) error {
 		return nil
 	}
 
-	// ReadyForQuery starts a new query processing. Forget pending queries.
+	// ReadyForQuery starts a new query processing. Forget the pending queries it closes.
 	// There is nothing interesting in the packet otherwise.
 	if packet.IsReadyForQuery() {
 		p.lastPacketType = ReadyForQueryPacket
-		return nil
+		return p.forgetPendingQueriesUntilSyncPoint(true)
 	}
 
 	// We are not interested in other packets, just pass them through.
